@@ -87,7 +87,10 @@ func SelfCheck(c *Concrete) error {
 		return err
 	}
 	leafFromInter := leaf.CheckSignatureFrom(inter) == nil
-	wantLFI := w.Get("leafPki") == w.Get("interPki") && in(w.Get("leafRole"), "pck", "wrongCN")
+	wantLFI := w.Get("leafPki") == w.Get("interPki") && in(w.Get("leafRole"), "pck", "wrongCN") && w.Get("interSlot") == "inter"
+	if w.Get("interSlot") == "root" { // the second block is the root: it signed the leaf iff the leaf was issued by that root directly
+		wantLFI = !in(w.Get("leafRole"), "pck", "wrongCN") && w.Get("leafPki") == w.Get("rootPki")
+	}
 	if leafFromInter != wantLFI {
 		return fmt.Errorf("leaf signed by embedded intermediate=%v, want %v", leafFromInter, wantLFI)
 	}
@@ -97,7 +100,7 @@ func SelfCheck(c *Concrete) error {
 			return err
 		}
 		ifr := inter.CheckSignatureFrom(root) == nil
-		if want := w.Get("interPki") == w.Get("rootPki"); ifr != want {
+		if want := w.Get("interPki") == w.Get("rootPki") || w.Get("interSlot") == "root"; ifr != want {
 			return fmt.Errorf("intermediate signed by embedded root=%v, want %v", ifr, want)
 		}
 	}
@@ -108,7 +111,7 @@ func SelfCheck(c *Concrete) error {
 		_, verr := leaf.Verify(x509.VerifyOptions{Roots: c.Pool, Intermediates: ip, CurrentTime: c.Clocks["PckCertChain"]})
 		home := w.Get("leafPki")
 		poolHas := map[string]bool{"A": in(w.Get("pool"), "A", "AB"), "B": in(w.Get("pool"), "B", "AB")}[home]
-		wantPath := poolHas && (w.Get("leafRole") != "pck" && w.Get("leafRole") != "wrongCN" || w.Get("interPki") == home)
+		wantPath := poolHas && (w.Get("leafRole") != "pck" && w.Get("leafRole") != "wrongCN" || (w.Get("interPki") == home && w.Get("interSlot") == "inter"))
 		if (verr == nil) != wantPath {
 			return fmt.Errorf("x509 path to pool ok=%v (%v), want %v", verr == nil, verr, wantPath)
 		}
@@ -175,7 +178,7 @@ func SelfCheck(c *Concrete) error {
 			return fmt.Errorf("leaf listed in PCK CRL=%v, want %v", listed, want)
 		}
 		byInter := crl.CheckSignatureFrom(inter) == nil
-		if want := w.Get("pckCrlSigner") == "inter"; byInter != want {
+		if want := w.Get("pckCrlSigner") == "inter" && w.Get("interSlot") == "inter"; byInter != want && w.Get("interSlot") == "inter" {
 			return fmt.Errorf("PCK CRL signed by embedded intermediate=%v, want %v", byInter, want)
 		}
 	}
